@@ -7,7 +7,10 @@ import (
 	"io"
 	"os"
 	"os/exec"
+	"reflect"
 	"runtime/debug"
+
+	"github.com/maruel/panicparse/v2/stack"
 
 	"verifsim/core"
 	"verifsim/gen"
@@ -376,3 +379,152 @@ func matchPieces(pieces [][]byte, del []bool, got []byte, allowDel bool) bool {
 }
 
 func joinPieces(p [][]byte) []byte { return bytes.Join(p, nil) }
+
+// ---- C14 at the command level: console rendering must not modify the snapshot --
+
+// ConsoleFunc renders a snapshot the way the command does: pf selects the path
+// format (0 full, 1 relative, 2 base name), buckets selects the aggregated or
+// the per-goroutine form. Bound by the clisim driver to the unexported
+// writeBucketsToConsole / writeGoroutinesToConsole of package internal.
+type ConsoleFunc func(s *stack.Snapshot, a *stack.Aggregated, pf int) string
+
+// CheckConsole: parse, aggregate, render to the console in every path format,
+// compare the snapshot with a freshly parsed twin after every rendering, and
+// the rendering itself with the rendering of the twin.
+func CheckConsole(c *Case, cf ConsoleFunc, cov *Cov) []*Violation {
+	b := c.Stream().Bytes
+	opts := &stack.Opts{NameArguments: true}
+	parse := func() *stack.Snapshot {
+		s, _, _ := stack.ScanSnapshot(bytes.NewReader(b), io.Discard, opts)
+		return s
+	}
+	subject := parse()
+	if subject == nil {
+		return nil
+	}
+	var vs []*Violation
+	for _, lvl := range []stack.Similarity{stack.AnyPointer, stack.ExactLines, stack.AnyValue} {
+		for pf := 0; pf < 3; pf++ {
+			for _, buckets := range []bool{true, false} {
+				var a *stack.Aggregated
+				if buckets {
+					a = subject.Aggregate(lvl)
+				}
+				got := cf(subject, a, pf)
+				twin := parse()
+				var ta *stack.Aggregated
+				if buckets {
+					ta = twin.Aggregate(lvl)
+				}
+				want := cf(twin, ta, pf)
+				if cov != nil {
+					cov.Evaluations++
+				}
+				pristine := parse()
+				if !reflect.DeepEqual(pristine, subject) {
+					d := DiffSnap(pristine, subject)
+					return append(vs, &Violation{Prop: "C14", Clause: "C14.snapshot-mutated", Case: c, Msg: fmt.Sprintf("[console rendering] after rendering (path format %d, buckets=%v, level %d) the snapshot differs from a freshly parsed twin: %s", pf, buckets, lvl, d)})
+				}
+				if got != want {
+					return append(vs, &Violation{Prop: "C14", Clause: "C14.result-changed", Case: c, Msg: fmt.Sprintf("[console rendering] rendering (path format %d, buckets=%v, level %d) after earlier renderings differs from the rendering of a freshly parsed snapshot", pf, buckets, lvl)})
+				}
+			}
+		}
+	}
+	return vs
+}
+
+// RunConsoleBatch runs seeded console-rendering cases.
+func RunConsoleBatch(seed uint64, offset, stride, runs int, cf ConsoleFunc) *CLIBatchOut {
+	cov := NewCov()
+	out := &CLIBatchOut{Cov: cov}
+	seen := map[string]bool{}
+	for i := offset; i < runs; i += stride {
+		r := core.NewRng(core.Mix(seed, "C14/console", uint64(i)))
+		var doc *gen.Doc
+		if r.Chance(0.6) {
+			doc = gen.GenerateSimilar(r, gen.SimilarCfg{Groups: r.Range(1, 4), MaxPerGrp: []int{1, 2, 4}[r.Intn(3)], Shuffle: r.Chance(0.5)})
+		} else {
+			cfg := gen.DefaultCfg(r)
+			cfg.MinDumps, cfg.MaxDumps = 1, 1
+			cfg.Long, cfg.VeryLong = false, false
+			doc = gen.Generate(r, cfg)
+		}
+		c := &Case{Prop: "C14", Run: uint64(i), Seed: seed, Mode: "console", Doc: doc, NameArgs: true}
+		for _, v := range CheckConsole(c, cf, cov) {
+			if !seen[v.Clause] {
+				seen[v.Clause] = true
+				out.Violations = append(out.Violations, v)
+			}
+		}
+		out.Runs++
+	}
+	return out
+}
+
+func postConsole(seed uint64, tier string, cov *Cov) ([]*Violation, map[string]any, error) {
+	bin := clisimBin()
+	if bin == "" {
+		return nil, map[string]any{"console_stage": "skipped: VERIF_CLISIM_BIN not set"}, nil
+	}
+	runs := 600
+	if tier == "thorough" {
+		runs = 30000
+	}
+	of, err := os.CreateTemp("", "clisim-console-*.json")
+	if err != nil {
+		return nil, nil, err
+	}
+	of.Close()
+	defer os.Remove(of.Name())
+	cmd := exec.Command(bin, "-test.run=^TestClisim$", "-test.timeout=2h")
+	cmd.Env = append(os.Environ(), "CLISIM_TRACEBACK=all", "CLISIM_MODE=console", "CLISIM_PROP=C14", fmt.Sprintf("CLISIM_SEED=%d", seed), "CLISIM_OFFSET=0", "CLISIM_STRIDE=1", fmt.Sprintf("CLISIM_RUNS=%d", runs), "CLISIM_OUT="+of.Name())
+	if ob, err := cmd.CombinedOutput(); err != nil {
+		return nil, nil, fmt.Errorf("clisim console stage: %v: %s", err, clipS(string(ob), 1000))
+	}
+	b, err := os.ReadFile(of.Name())
+	if err != nil {
+		return nil, nil, err
+	}
+	var o CLIBatchOut
+	if err := json.Unmarshal(b, &o); err != nil {
+		return nil, nil, err
+	}
+	cov.Evaluations += o.Cov.Evaluations
+	return o.Violations, map[string]any{"console_stage": map[string]any{"what": "the command's console renderers (writeBucketsToConsole / writeGoroutinesToConsole of package internal, reached through the overlaid driver) on parsed snapshots: snapshot compared with a fresh twin after every rendering, in all three path formats", "runs": o.Runs, "evaluations": o.Cov.Evaluations}}, nil
+}
+
+func init() {
+	extraModes["C14/console"] = func(c *Case, cov *Cov) []*Violation {
+		bin := clisimBin()
+		if bin == "" {
+			panic("VERIF_CLISIM_BIN not set (run through /verif/run.sh)")
+		}
+		f, err := os.CreateTemp("", "clisim-case-*.json")
+		if err != nil {
+			panic(err)
+		}
+		defer os.Remove(f.Name())
+		json.NewEncoder(f).Encode(c)
+		f.Close()
+		of := f.Name() + ".out"
+		defer os.Remove(of)
+		cmd := exec.Command(bin, "-test.run=^TestClisim$")
+		cmd.Env = append(os.Environ(), "CLISIM_TRACEBACK=all", "CLISIM_MODE=consolecase", "CLISIM_PROP=C14", "CLISIM_CASE="+f.Name(), "CLISIM_OUT="+of)
+		if ob, err := cmd.CombinedOutput(); err != nil {
+			panic(fmt.Sprintf("clisim driver: %v: %s", err, clipS(string(ob), 800)))
+		}
+		b, err := os.ReadFile(of)
+		if err != nil {
+			panic(err)
+		}
+		var vs []*Violation
+		if err := json.Unmarshal(b, &vs); err != nil {
+			panic(err)
+		}
+		for _, v := range vs {
+			v.Case = c
+		}
+		return vs
+	}
+}
